@@ -55,6 +55,10 @@ def _is_num(v):
 FLAGS = {"offline": ("0", "1"), "mode": ("full", "delta"), "context": ("registration", "interactive"), "last": ("true", "false")}
 
 
+# numeric attributes whose value 0 means "absent" (the entity then legitimately omits the attribute): any value from 1
+MIN_NUM = {"backoff": 1}
+
+
 def sym_value(ctx, namer, key, v, keep=()):
     if key in keep or not isinstance(v, str) or v == "":
         return v
@@ -69,7 +73,7 @@ def _sym_value(ctx, namer, key, v):
     if key in FLAGS and v in FLAGS[key]:
         return ctx.choice(namer.next(key), FLAGS[key])
     if _is_num(v):
-        return H.numstr(ctx, namer.next(key), 0)
+        return H.numstr(ctx, namer.next(key), MIN_NUM.get(key, 0))
     return H.zstr(ctx, namer.next(key), nonempty=True)
 
 
